@@ -11,8 +11,7 @@ Public API
          "features": [str, ...],                          # for the histogram in selftest
          "git": bool, "gitignore": str | None,
          "config_settings": {...} | None,                  # PEP 517 config settings
-         "table_style": "poetry" | "project",
-         "expect_buildable": bool}
+         "table_style": "poetry" | "project"}
 
     Deterministic for a given ``random.Random`` state.  Every file has a
     *unique* content (the path is embedded in the text; at most one file is
@@ -54,6 +53,23 @@ RESERVED = {
     "src", "lib2", "bin", "extra", "docs", "tests", "dist", "build",
     "licenses", "vendor", "wonly", "setup", "pyproject", "readme", "license",
     "licence", "copying", "authors", "notice", "changelog", "changes",
+}
+
+# Probabilities of the three generator features that are known to expose
+# genuine-looking violations of C09 in the current tree (see the report in
+# selftest / the oracle details).  They are kept rare so that they do not drown
+# everything else; set an entry to 0.0 to switch the feature off.
+#   git_ignored_unicode_name   a git-ignored file with a non-ASCII name (git
+#                              quotes it in `ls-files`, the ignore is lost)
+#   readd_ignored_sdist_only   an sdist-only include re-adds a git-ignored file
+#                              that lives inside a package (the sdist carries no
+#                              VCS information, so wheel(sdist) gains the file)
+#   exclude_all_modules        an exclude pattern that removes every .py file of
+#                              the package (the sdist then no longer builds)
+RISKY = {
+    "git_ignored_unicode_name": 0.05,   # given: git project with '*.dat' ignored
+    "readd_ignored_sdist_only": 0.10,   # given: an include re-adds an ignored file
+    "exclude_all_modules": 0.04,        # given: a package project with excludes
 }
 
 GIT_ENV = {
@@ -332,7 +348,25 @@ def _gen_package_tree(b: _B, pdir: str, stubs: bool = False, rich: bool = True) 
     return info
 
 
+NONTRIVIAL = {
+    "nested_package", "data_files", "include", "exclude", "file_scripts", "license_file",
+    "licenses_dir", "name_needs_normalisation", "version_epoch", "version_pre", "version_post",
+    "version_dev", "version_local", "second_package", "git_ignored_in_package", "package_to",
+}
+
+
 def gen_project(rng: random.Random) -> dict:
+    """Draw specs until one is non-trivial (at least two of NONTRIVIAL); at most
+    four redraws, all from the same ``rng`` (so still deterministic)."""
+    spec = _gen_once(rng)
+    for _ in range(4):
+        if len(NONTRIVIAL & set(spec["features"])) >= 2:
+            break
+        spec = _gen_once(rng)
+    return spec
+
+
+def _gen_once(rng: random.Random) -> dict:
     b = _B(rng)
     p = b.p
     feats = b.features
@@ -400,7 +434,7 @@ def gen_project(rng: random.Random) -> dict:
         primary = {"include": pname}
         if layout == "src":
             primary["from"] = "src"
-        explicit_packages = explicit_packages or p(0.45)
+        explicit_packages = explicit_packages or p(0.3)
 
     # glob-style package include
     if kind == "package" and explicit_packages and p(0.12):
@@ -419,7 +453,7 @@ def gen_project(rng: random.Random) -> dict:
 
     # ---- more packages ----------------------------------------------------
     second = None
-    if p(0.3):
+    if p(0.25):
         explicit_packages = True
         oname = "other_" + "".join(rng.choice(string.ascii_lowercase) for _ in range(2))
         if layout == "src" and p(0.5):
@@ -441,7 +475,7 @@ def gen_project(rng: random.Random) -> dict:
         roots = {primary.get("from"), second.get("from")}
         if len(roots) > 1:
             feats.add("editable_two_roots")
-    if p(0.2):
+    if p(0.15):
         explicit_packages = True
         b.add("tests/__init__.py")
         b.add("tests/test_it.py")
@@ -511,10 +545,13 @@ def gen_project(rng: random.Random) -> dict:
             cands += [f"{pdir}/sub/m.py", f"{pdir}/sub"]
         if pinfo["sh"]:
             cands += [f"{pdir}/*.sh"]
-        cands += [f"{pdir}/**/_*.py", f"{pdir}/api.py", "does/not/exist/*"]
+        cands += [f"{pdir}/**/_u*.py", f"{pdir}/api.py", "does/not/exist/*"]
         for c in rng.sample(cands, min(len(cands), rng.choice([1, 1, 2]))):
             exclude.append(c)
         feats.add("exclude")
+        if p(RISKY["exclude_all_modules"]):
+            exclude.append(f"{pdir}/**/*.py")
+            feats.add("exclude_all_modules")
         # occasionally re-add one excluded file through an explicit include
         if pinfo["json"] and any("json" in e or "data" in e for e in exclude) and p(0.35):
             fmt = rng.choice([both(), both(), ["sdist"]])
@@ -551,7 +588,7 @@ def gen_project(rng: random.Random) -> dict:
                         b.add(f"{pdir}/keep.dat")
                         lines.append("!keep.dat")
                         feats.add("gitignore_negation")
-                    if p(0.1):
+                    if p(RISKY["git_ignored_unicode_name"]):
                         b.add(f"{pdir}/ïgnored.dat")
                         feats.add("git_ignored_unicode_name")
                 if "*.log" in lines:
@@ -565,7 +602,7 @@ def gen_project(rng: random.Random) -> dict:
             if readd and p(0.3):
                 # mostly for both formats; an sdist-only re-add of a file that
                 # sits inside the package makes wheel(sdist) != wheel(tree)
-                fmt = both() if p(0.85) else ["sdist"]
+                fmt = ["sdist"] if p(RISKY["readd_ignored_sdist_only"]) else both()
                 include.append({"path": rng.choice(readd), "format": fmt})
                 feats.add("include_readds_ignored")
                 if fmt == ["sdist"]:
